@@ -302,6 +302,11 @@ def run(prog, rep):
     # fcntl(F_SETFL) - ORs O_NONBLOCK into the flags on every path on which its boolean parameter is false; (b) every constructor
     # that installs a descriptor into a fresh object passes through that setter with FALSE before it can return the object
     setters = [f for f in u.functions.values() if any(c.get("callee") == "fcntl" and len(c["args"]) >= 3 and cv(c["args"][1]) == F_SETFL for (b, i, c) in f.calls())]
+    if len(setters) > 1:
+        # another function that happens to use F_SETFL (for something else, rightly or wrongly - C10.6 judges that) is not the mode setter:
+        # the setter is the one that computes with O_NONBLOCK
+        setters = [f for f in setters if any(n["k"] in ("bin", "asg") and O_NONBLOCK in (cv(n.get("l")), cv(n.get("r")), ~(cv(n.get("r")) or 0) & 0xffffffff, ~(cv(n.get("l")) or 0) & 0xffffffff)
+                                             for (b, i, n) in f.nodes(elsewhere=True) if n["k"] in ("bin", "asg"))]
     if len(setters) != 1 or len(setters[0].param_names()) < 2:
         raise AnalysisBroken("psocket.c: expected exactly one function that sets the descriptor status flags (fcntl F_SETFL)")
     S = setters[0]
